@@ -2,8 +2,14 @@
    Per-axis core: the chunks a basic slice advertises are exactly the lengths of the
    pieces its graph produces (C13), and every rechunk plan step is a layout of the shape (C15).
    Expression level: every modelled rewrite keeps the advertised shape, and the rechunk
-   rewrites keep the advertised chunks. *)
+   rewrites keep the advertised chunks.
+   API level (ProgChunks.v): the ADVERTISED-CHUNKS RULE pchunks of the program language of ProgSem.v — what
+   `.chunks` announces for the result of every operation as a function of the operands' chunks (leaf chunks and the
+   unified layouts of differently chunked operands are oracle arguments) — always yields a layout of the advertised
+   shape (= the computed shape); closed forms per operation.  harness/c03.py `fam_chunk_rule` compares pchunks with
+   the chunks dask_array advertises at every node of generated programs. *)
 From DA Require Import PyBase Slicing Slice1dFacts Rechunk RechunkFacts NdArray NdArrayFacts ExprRules ExprRulesFacts.
+From DA Require Import ProgSem ProgChunks ProgChunksFacts.
 Open Scope Z_scope.
 
 Theorem C03_slice_chunks_are_piece_lengths :
@@ -61,8 +67,157 @@ Proof.
   - apply (rule_rechunk_noop_sound unit (fun _ _ => tt) (fun _ => tt) (fun _ _ => tt) (fun _ => tt) _ _ H).
 Qed.
 
+
+(* ====================================================================== *)
+(* the advertised-chunks rule of the API (ProgChunks.pchunks) *)
+
+(* MAIN: for ALL programs and ALL oracles that return, at every node, a layout of that node's advertised shape:
+   the advertised chunks are a layout of the advertised shape — per axis the block sizes sum to the axis length,
+   no block size is negative, every axis has at least one block.  (pchunks is None on programs containing take,
+   reshape, a non-explicit rechunk specification or repeat > 3, and where the implementation raises.) *)
+Theorem C03_advertised_chunks_are_a_layout :
+  forall p orc cs s,
+  orc_wf orc p -> pchunks orc p = Some cs -> pshape p = Some s ->
+  map zsum cs = s /\ Forall (fun c => Forall (fun x => 0 <= x) c /\ c <> []) cs.
+Proof. exact pchunks_layout. Qed.
+
+(* ... and of the shape of the COMPUTED value (ProgSem.eval, = NumPy's result by C01's correspondence) *)
+Theorem C03_advertised_chunks_lay_out_computed_shape :
+  forall p orc cs a,
+  orc_wf orc p -> pchunks orc p = Some cs -> eval p = Some a ->
+  map zsum cs = nshape a /\ Forall (fun c => Forall (fun x => 0 <= x) c /\ c <> []) cs.
+Proof. exact pchunks_layout_eval. Qed.
+
+(* the oracle hypothesis is decidable: the boolean check the harness evaluates on the chunks dask_array advertises *)
+Theorem C03_oracle_check_sound :
+  forall p orc, orc_wf_b orc p = true -> orc_wf orc p.
+Proof. exact orc_wf_b_sound. Qed.
+
+(* the local rules: every unary / n-ary operation maps layouts of the operand shapes to a layout of the result shape *)
+Theorem C03_unary_rule_keeps_layouts :
+  forall o ov cs s r,
+  lay_ok cs s -> un_ok o s = true -> lay_ok ov (un_shape o s) ->
+  un_chunks o ov cs = Some r -> lay_ok r (un_shape o s).
+Proof. exact un_chunks_ok. Qed.
+
+Theorem C03_nary_rule_keeps_layouts :
+  forall o ov css ss r,
+  Forall2 lay_ok css ss -> n_ok o ss = true -> lay_ok ov (n_shape o ss) ->
+  n_chunks o ov css = Some r -> lay_ok r (n_shape o ss).
+Proof. exact n_chunks_ok. Qed.
+
+(* --- closed forms --- *)
+(* slicing: along a sliced axis the advertised chunk sizes are the numbers of positions the blocks of the operand
+   contribute (the plan of _slice_1d, in output order; C13), and those positions are exactly NumPy's x[sl] *)
+Theorem C03_slice_rule_chunks_are_piece_lengths :
+  forall sl ix db rest,
+  (Forall (fun x => 0 <= x) db /\ db <> []) -> step_of sl <> 0 ->
+  let d := zsum db in
+  let idx := normalize_slice sl d in
+  slice_chunks (ISlice sl :: ix) (db :: rest)
+    = (if pslice_eqb idx colon then db
+       else map (fun e => Z.of_nat (length (abs_positions db e))) (slice_1d_slice d db idx))
+      :: slice_chunks ix rest
+  /\ plan_positions db (slice_1d_slice d db idx) = sel sl d.
+Proof. exact slice_chunks_axis_exact. Qed.
+
+(* transpose: axis i of the result carries the chunks of axis axes[i]; the inverse permutation restores them *)
+Theorem C03_transpose_rule :
+  forall orc axes p cs,
+  pchunks (sub orc 0) p = Some cs ->
+  pchunks orc (PT axes p) = Some (map (fun j => nth j cs []) axes).
+Proof. exact transpose_chunks_exact. Qed.
+
+Theorem C03_transpose_rule_inverse :
+  forall axes ov ov' cs r,
+  is_permb axes (length cs) = true ->
+  un_chunks (OT axes) ov cs = Some r -> un_chunks (OT (inv_axes axes)) ov' r = Some cs.
+Proof. exact transpose_chunks_inverse. Qed.
+
+(* concatenate of non-empty parts: along the axis, the parts' chunks one after the other, whatever the oracle *)
+Theorem C03_concat_rule_appends_along_axis :
+  forall ax ov p q rest r,
+  (ax < length p)%nat -> Forall (fun c => lsize c <> 0) (p :: q :: rest) ->
+  concat_chunks ax ov (p :: q :: rest) = Some r ->
+  nth ax r [] = concat (map (fun c => nth ax c []) (p :: q :: rest)).
+Proof. exact concat_chunks_axis_exact. Qed.
+
+(* flip: the chunks along the axis are the piece lengths of the plan of x[::-1], whose positions are d-1, ..., 0 *)
+Theorem C03_flip_rule :
+  forall db rest,
+  (Forall (fun x => 0 <= x) db /\ db <> []) -> let d := zsum db in
+  slice_chunks (flip_index 0) (db :: rest) = new_blockdim d db rev_slice :: rest /\
+  new_blockdim d db rev_slice = map (fun e => Z.of_nat (length (abs_positions db e))) (slice_1d_slice d db rev_slice) /\
+  plan_positions db (slice_1d_slice d db rev_slice) = zrange (d - 1) (-1) (-1).
+Proof. exact flip_chunks_exact. Qed.
+
+(* "flip = the same chunks reversed" is FALSE of the faithful rule when a chunk has size 0 (the slice drops empty
+   blocks): da.flip(da.from_array(np.arange(5), chunks=((0,3,0,2),)), 0).chunks == ((2, 3),)  — replayed, agrees *)
+Theorem C03_flip_is_reversed_chunks_refuted :
+  exists db, (Forall (fun x => 0 <= x) db /\ db <> []) /\
+             slice_chunks (flip_index 0) [db] <> [rev db].
+Proof. exact flip_is_reversed_chunks_refuted. Qed.
+
+(* element-wise on one array operand (unary ufuncs, Python scalars) or on operands that agree: no oracle *)
+Theorem C03_elementwise_rule_deterministic :
+  forall ov cs,
+  elem_chunks ov [cs] = cs /\ elem_chunks ov [cs; []] = cs /\ elem_chunks ov [[]; cs] = cs /\ elem_chunks ov [cs; cs] = cs.
+Proof. exact elem_chunks_deterministic. Qed.
+
+(* reductions: a reduced axis is one block of size 1 with keepdims and is dropped without *)
+Theorem C03_reduce_rule :
+  forall f axes kd ov cs,
+  un_chunks (OReduce f axes kd) ov cs =
+  Some (let l := red_axes axes (cshape cs) in if kd then red_kchunks 0 l cs else red_dchunks 0 l cs).
+Proof. exact reduce_chunks_exact. Qed.
+
+(* --- non-vacuity: concrete programs, oracle tables replayed against dask_array --- *)
+(* concatenate([x[1::2], arange(3) + 1]) with x = from_array(arange(7), chunks=(3,4)), arange chunks (2,1) *)
+Definition C03_ex_p1 : prog :=
+  PConcat 0 [PSlice [ISlice (mkslice (Some 1) None (Some 2))] (PSrc [7] [0;1;2;3;4;5;6]); PElem EAdd [PArange 3; PConst 1]].
+Definition C03_ex_tbl1 : list (list nat * layout) :=
+  [ ([]%nat, [[1;2;2;1]]); ([0]%nat, [[1;2]]); ([0;0]%nat, [[3;4]]); ([1]%nat, [[2;1]]); ([1;0]%nat, [[2;1]]) ].
+Example C03_ex_hypotheses_hold :
+  orc_wf_b (orc_of C03_ex_tbl1) C03_ex_p1 = true /\
+  pchunks (orc_of C03_ex_tbl1) C03_ex_p1 = Some [[1;2;2;1]] /\ pshape C03_ex_p1 = Some [6].
+Proof. vm_compute. repeat split. Qed.
+
+(* (a + b)[:, ::-1].T.sum(axis=0, keepdims=True) with a chunks ((2,),(1,2)), b = ones chunks ((1,1),(3,)):
+   the element-wise node reads the oracle (dask_array unifies to ((1,1),(1,2))) *)
+Definition C03_ex_p2 : prog :=
+  PReduce RSum (Some [0%nat]) true (PT [1;0]%nat (PFlip 1 (PElem EAdd [PSrc [2;3] [1;2;3;4;5;6]; POnes [2;3]]))).
+Definition C03_ex_tbl2 : list (list nat * layout) :=
+  [ ([]%nat, [[1];[1;1]]); ([0]%nat, [[2;1];[1;1]]); ([0;0]%nat, [[1;1];[2;1]]); ([0;0;0]%nat, [[1;1];[1;2]]);
+    ([0;0;0;0]%nat, [[2];[1;2]]); ([0;0;0;1]%nat, [[1;1];[3]]) ].
+Example C03_ex_oracle_node :
+  orc_wf_b (orc_of C03_ex_tbl2) C03_ex_p2 = true /\
+  pchunks (orc_of C03_ex_tbl2) C03_ex_p2 = Some [[1];[1;1]] /\ pshape C03_ex_p2 = Some [1;2] /\
+  nodes_ok C03_ex_tbl2 C03_ex_p2 [([]%nat, true); ([0]%nat, true); ([0;0]%nat, true); ([0;0;0]%nat, true)] = true.
+Proof. vm_compute. repeat split. Qed.
+
+(* the rules of roll / repeat / diff on concrete layouts *)
+Example C03_ex_roll_repeat_diff :
+  un_chunks (ORoll 2 0) [] [[3;4]] = Some [[2;3;2]] /\
+  un_chunks (ORepeat 3 0) [] [[3;4;1]] = Some [[6;3;6;6;3]] /\
+  un_chunks (ODiff 0) [[2;4]] [[3;4]] = Some [[2;4]] /\
+  slice_chunks (flip_index 0) [[1;3;2]] = [[2;3;1]].
+Proof. vm_compute. repeat split. Qed.
+
 Print Assumptions C03_slice_chunks_are_piece_lengths.
 Print Assumptions C03_rechunk_blocks_have_new_sizes.
 Print Assumptions C03_advertised_shape_is_denoted_shape.
 Print Assumptions C03_rewrites_keep_advertised_shape.
 Print Assumptions C03_rechunk_rewrites_keep_advertised_chunks.
+Print Assumptions C03_advertised_chunks_are_a_layout.
+Print Assumptions C03_advertised_chunks_lay_out_computed_shape.
+Print Assumptions C03_oracle_check_sound.
+Print Assumptions C03_unary_rule_keeps_layouts.
+Print Assumptions C03_nary_rule_keeps_layouts.
+Print Assumptions C03_slice_rule_chunks_are_piece_lengths.
+Print Assumptions C03_transpose_rule.
+Print Assumptions C03_transpose_rule_inverse.
+Print Assumptions C03_concat_rule_appends_along_axis.
+Print Assumptions C03_flip_rule.
+Print Assumptions C03_flip_is_reversed_chunks_refuted.
+Print Assumptions C03_elementwise_rule_deterministic.
+Print Assumptions C03_reduce_rule.
